@@ -8,9 +8,13 @@ modify_file_in_place that is False after _initialize and assigned True elsewhere
 
   (1) the refusal dominates every write of modify_file_in_place to the image file and to the record;
   (2) every method that marks the metadata stale (assigns `self._needs_reshuffle = True`, the same computed set
-      SA-RESHUFFLE.flag uses) assigns the guard True on *every* normal path - "nothing was added, so nothing
-      moved" is not a valid shortcut: a hard link, a symlink or an empty file adds no byte to the volume but
-      inserts a directory record, which shifts the cached offsets of the records behind it;
+      SA-RESHUFFLE.flag uses) assigns the guard True on every normal path on which a non-zero amount of bytes is
+      accounted.  (Until fix 8f3e05d the record position was derived from the cached per-child offsets, which a
+      zero-byte edit - hard link, symlink, empty file - shifts; the rule then demanded *every* path, and
+      seeded/C17c broke the property.  Since that fix the position is the one the record was found at, a zero-byte
+      edit moves no extent, and C17c no longer breaks anything: its demo passes.  Demanding the guard there would
+      now be an alarm on code where the property holds, so the zero-amount branch of a test on the method's own
+      byte counts is exempt; a guard made conditional on anything else is still reported);
   (3) the guard is lowered only where the object is re-initialised.
 """
 import ast
@@ -74,9 +78,29 @@ def guard_layout(ctx):
             nmark += 1
             fg = ctx.cfg(f)
 
+            fparams = set(p.lstrip('*') for p in f.params) - {'self'}
+
+            def amount_test(node):
+                # `if <sum of the byte counts this method was given> > 0` (or != 0, or the bare sum): with nothing
+                # added or removed no extent moves, and since the record position comes from the opened image
+                # (orig_offset) the in-place write is right without the guard - only the branch with a non-zero
+                # amount has to raise it
+                if node.kind != 'test':
+                    return False
+                t = node.ast
+                names = set(x.id for x in ast.walk(t) if isinstance(x, ast.Name))
+                if not names or not names <= fparams:
+                    return False
+                if isinstance(t, ast.Compare) and len(t.ops) == 1 and isinstance(t.ops[0], (ast.Gt, ast.NotEq)) and \
+                        isinstance(t.comparators[0], ast.Constant) and t.comparators[0].value == 0:
+                    return True
+                return isinstance(t, (ast.Name, ast.BinOp))
+
             def tr(node, st, lab):
                 if lab in ('exc', 'callexc'):
                     return st
+                if lab == 'F' and amount_test(node):
+                    return None        # the zero-amount branch is not an obligation
                 s = node.stmt
                 if node.kind == 'stmt' and isinstance(s, ast.Assign) and any(norm(t) == 'self.' + attr for t in s.targets) and \
                         isinstance(s.value, ast.Constant) and s.value.value is True:
@@ -85,9 +109,9 @@ def guard_layout(ctx):
             IN = fg.forward(False, tr, lambda a, b: a and b)
             ok = bool(IN.get(fg.exit.id))
             obs.append(Ob('SA-GUARD.layout', '%s|raises self.%s on every path' % (f.qual, attr), ok, ctx.loc(f, marks[0]),
-                          '' if ok else '%s marks the layout stale but has a normal path on which self.%s stays False: after such an edit '
-                          '(a hard link, a symlink, an empty file: no bytes added, but a directory record inserted and the offsets of its later siblings '
-                          'shifted) modify_file_in_place is accepted and writes the record at a position that now belongs to another entry' % (f.qual, attr)))
+                          '' if ok else '%s marks the layout stale but has a normal path, not conditioned on a zero byte count, on which self.%s stays False: '
+                          'after such an edit extents have moved, modify_file_in_place is accepted and writes the new content and the file entries at sectors that '
+                          'belong to other data in the opened file' % (f.qual, attr)))
         if nmark < 2:
             raise AnalysisError('anchor-vanished: methods that assign self._needs_reshuffle = True (%d)' % nmark)
         # (3) lowered only at re-initialisation
